@@ -394,7 +394,11 @@ def _restart_phase(case, out, recv, senders, originals, net, mtu):
         return []
     old_bid, old_data = first[0]
     src = segs[0][0]['src']
-    # everything announced so far has been popped by the caller of this phase; repeat one old segment
+    # everything announced so far has been popped by the caller of this phase.  Repeats during the arrival phase may have
+    # left reassembly state of their own (all arrivals happen at one instant of the virtual clock); a quiet period
+    # first, so that this phase starts from what one late repeat alone leaves behind
+    simloop.advance_to(simloop.CLOCK.now_ms + int(spec['gap_ms']))
+    recv.settle()
     dup = segs[spec['dup'] % len(segs)][0]
     before = len(recv.signals('recv_bundle_finished'))
     net.deliver(dict(src=src, dst=RECV, data=dup['data']))
